@@ -20,10 +20,14 @@ theorem C04_once (bs : List Block) : cnt (render bs) = (bs.map Block.slots).sum 
 example : cnt (render [.section ⟨false, true, false, false, false, false, [.col ⟨true, [.text, .raw]⟩, .group [.col ⟨false, [.text]⟩, .raw false]]⟩,
                        .wrapper ⟨true, false, [.raw true, .sec ⟨true, false, false, true, false, false, []⟩]⟩]) = 5 := by decide
 
-/-- **the full visibility statement is false of the code** (finding class `content-in-mso`): raw content placed after a
-    section that left the Outlook comment open is written inside that comment -/
-example : ¬ Visible ((render [.section ⟨false, false, false, false, false, false, []⟩, .raw false,
-                              .section ⟨false, false, false, false, false, false, []⟩]).map Tok.toG) := by
+/-- **never only inside an Outlook-only comment, for every body whose wrappers are tame**: the class `content-in-mso` (raw
+    content after a section that left the comment open) is repaired in body.go -/
+theorem C04_visible_all_bodies (bs : List Block) (hw : WrappersTame bs) : Visible ((render bs).map Tok.toG) :=
+  (wf_spec _ (C02_C03_all bs hw)).2.2
+
+/-- the formerly failing shape: raw content between two sections is visible now -/
+example : Visible ((render [.section ⟨false, false, false, false, false, false, []⟩, .raw false,
+                            .section ⟨false, false, false, false, false, false, []⟩]).map Tok.toG) := by
   unfold Visible; decide
 
 end Gomjml.Props.C04
